@@ -35,4 +35,60 @@ PROPS = {
         thorough=dict(budget_s=1200, profiles=[P("C16", 8000), P("C16", 0, enumerate=["enum:%d" % i for i in range(750)])]),
         reach=["c16_stalled_fragments"],
     ),
+    "C02": dict(
+        level="exploration",
+        rule="every documented single-key command (round-robin over docs/command.md) with exotic argument bytes (empty, binary, CR/LF, RESP look-alikes, "
+             "64 KiB+-1, MiB in thorough) and scripted replies of all RESP2 shapes/sizes, under segmentation, short reads/writes, EAGAIN, tiny "
+             "send buffers, slow readers, read buffers of 16 B..64 KiB, with/without password and replicas; oracle: backend bytes = client bytes with "
+             "only the command name lower-cased, client bytes = backend reply bytes; non-trivial = a short read/write or EAGAIN actually occurred",
+        quick=dict(budget_s=80, profiles=[P("C02", 500)]),
+        thorough=dict(budget_s=1500, profiles=[P("C02", 15000), P("C02", 600, "big")]),
+        reach=["ShortReads", "ShortWrites", "EAGAINWrite", "c02_big_messages"],
+    ),
+    "C04": dict(
+        level="exploration",
+        rule="random topologies (3-8 masters, 0-3 replicas, contiguous/fragmented/single-slot ranges), every documented command, keys pinned to random "
+             "slots, plain, or with adversarial brace arrangements; oracle at the backends with an independent CRC16/hash-tag implementation and Redis' "
+             "read/write classification; handshake checked on every backend connection; non-trivial = more than 3 distinct slots hit",
+        quick=dict(budget_s=80, profiles=[P("C04", 500)]),
+        thorough=dict(budget_s=1500, profiles=[P("C04", 20000)]),
+        reach=["c04_replica_reads", "c04_slots_hit"],
+    ),
+    "C06": dict(
+        level="exploration",
+        rule="MGET/DEL/MSET with 1-300 keys (thorough: up to 5000), duplicates, many keys per slot via hash tags, empty and binary keys/values over "
+             "random slot layouts; oracle on the wire at the backends: one well-formed same-kind fragment per distinct slot carrying exactly the "
+             "request's keys of that slot in order; non-trivial = request spans several slots. The input dimension is sampled.",
+        quick=dict(budget_s=80, profiles=[P("C06", 400)]),
+        thorough=dict(budget_s=1500, profiles=[P("C06", 12000), P("C06", 200, "huge")]),
+        reach=["c06_multislot_requests"],
+    ),
+    "C07": dict(
+        level="exploration",
+        rule="split requests as C06 with mixed present/absent keys and awkward values, fragment replies released in seeded random orders and byte-level "
+             "interleavings; oracle: merged reply equals the harness's own merge of what each node returned in this run; non-trivial = fragment replies "
+             "arrived in an order different from request order",
+        quick=dict(budget_s=80, profiles=[P("C07", 400)]),
+        thorough=dict(budget_s=1500, profiles=[P("C07", 15000)]),
+        reach=["c07_out_of_order_arrivals"],
+    ),
+    "C08": dict(
+        level="exploration",
+        rule="well-formed pipelines (all request classes, binary-safe arguments, some >128 KiB) cut into seeded random chunks, 1-byte chunks, and (thorough) "
+             "every single cut position and cut pairs of fixed pipelines, with read buffers of 16 B..64 KiB; oracle: exactly the planned requests are "
+             "recognised once each, in order, unaltered, and the connection is never closed or answered early; non-trivial = more than 3 proxy reads",
+        quick=dict(budget_s=80, profiles=[P("C08", 400)]),
+        thorough=dict(budget_s=1800, profiles=[P("C08", 8000)] + [P("C08", 0, enumerate=["cut:%d:%d" % (pl, pos) for pl in range(12) for pos in range(0, 400)])]
+                      + [P("C08", 0, enumerate=["cut:%d:%d:%d" % (pl, pos, d) for pl in range(3) for pos in range(0, 200, 3) for d in range(0, 64, 5)])]),
+        reach=["ShortReads", "c08_chunks"],
+    ),
+    "C10": dict(
+        level="exploration",
+        rule="one connection per node; 1-5 clients with deep pipelines (single, split, SET;GET pairs on private keys), interleavings of client reads, "
+             "write signals (thorough: >256 queued tasks per poll), backend replies and blocked/short backend writes; oracle: per (client,node) request "
+             "indices arrive non-decreasing, and each pipelined GET observes its SET; non-trivial = several clients or a blocked/short backend write",
+        quick=dict(budget_s=80, profiles=[P("C10", 300)]),
+        thorough=dict(budget_s=1500, profiles=[P("C10", 8000), P("C10", 300, "tasks")]),
+        reach=["c10_set_get_pairs"],
+    ),
 }
